@@ -8,7 +8,7 @@ HEADLINE = ["outcome_ok", "outcome_error", "scenario_rejected_by_cycle_check",
 
 def plan(tier, seed, scale):
     return {"n_cases": sizes(tier, scale, 3200, 80000), "variants": 4,
-            "profiles": ["par", "core", "par_flat", "events", "deep", "big", "chain", "flat"],
+            "profiles": ["par", "core", "par_flat", "events", "deep", "big", "chain", "flat", "wild", "wild_flat"],
             "remote_cases": int((32 if tier == "quick" else 1600) * scale),
             "timeout_s": 600 if tier == "quick" else 7200}
 
